@@ -102,6 +102,7 @@ type world struct {
 	tokenBad bool
 	reup     bool
 	events   []string
+	cdnReqs  [][3]int64 // every getCdnFile request in order: offset, limit, length of the answer
 }
 
 func (w *world) note(f string, a ...interface{}) {
@@ -279,6 +280,7 @@ func (w *world) UploadGetCDNFile(ctx context.Context, r *tg.UploadGetCDNFileRequ
 		return &tg.UploadCDNFileReuploadNeeded{RequestToken: []byte{1, 2, 3}}, nil
 	}
 	plain := w.tamper(r.Offset, r.Limit, genuine(w.c.Size, r.Offset, r.Limit))
+	w.cdnReqs = append(w.cdnReqs, [3]int64{r.Offset, int64(r.Limit), int64(len(plain))})
 	return &tg.UploadCDNFile{Bytes: ctrXor(w.key, w.iv, r.Offset, plain)}, nil
 }
 
@@ -327,6 +329,7 @@ type fobs struct {
 	Dup        bool
 	Attacked   int
 	Events     []string
+	CDNReqs    [][3]int64
 }
 
 func runFile(c fcase) fobs {
@@ -383,6 +386,7 @@ func runFile(c fcase) fobs {
 	}
 	w.mu.Lock()
 	o.Attacked, o.Events = w.attacked, w.events
+	o.CDNReqs = append([][3]int64(nil), w.cdnReqs...)
 	w.mu.Unlock()
 	return o
 }
@@ -488,6 +492,18 @@ func main() {
 		}
 		if o.Attacked > 0 {
 			c.Nontrivial(fmt.Sprintf("%+v", fc))
+		}
+		// the walk over the request plans (cdn.Chunk): single-threaded streaming downloads with a part size
+		// that is a multiple of the hash window (no whole-window fetches in between), no token/reupload events
+		if fc.Mode == "cdn-inline" && fc.Stream && fc.Threads == 1 && fc.P%window == 0 && !fc.TokenOnce && !fc.Reupload && len(o.CDNReqs) > 0 {
+			rs := make([]string, len(o.CDNReqs))
+			ls := make([]string, len(o.CDNReqs))
+			for i, r := range o.CDNReqs {
+				rs[i] = hx.Tuple(hx.Z(r[0]), hx.Z(r[1]))
+				ls[i] = hx.Z(r[2])
+			}
+			c.Case(fmt.Sprintf("CWalk %d %s %s", fc.P, hx.List(rs), hx.List(ls)), map[string]interface{}{"file": fc, "cdn_requests": len(o.CDNReqs)})
+			c.Count("walk:" + fc.Attack.Kind)
 		}
 		if o.Err == "" && !o.Equal {
 			// classification by what was OBSERVED, not by the attack that was tried
@@ -902,6 +918,18 @@ func main() {
 					fileCase("each-response", fcase{Mode: mode, Stream: at%2 == 0, Size: sz, P: p, Threads: 1 + at%2, Seed: c.Rng.U64(),
 						Attack: attack{Kind: ak, At: at, Once: true}})
 				}
+			}
+		}
+	}
+	// plan walks: single-threaded streams with window-aligned part sizes under every attack
+	for _, p := range []int{128 * kib, 256 * kib, 512 * kib, 1280 * kib} {
+		for _, sz := range []int64{4*window + 1000, 4 * window, 70 * kib, 9*window + 5} {
+			for _, ak := range attacks {
+				if ak == "hash-lie" || ak == "reorder" {
+					continue
+				}
+				fileCase("walk", fcase{Mode: "cdn-inline", Stream: true, Size: sz, P: p, Threads: 1, Seed: c.Rng.U64(),
+					Attack: attack{Kind: ak, At: c.Rng.Intn(int(sz/int64(min(p, mib))) + 2), Once: true}})
 			}
 		}
 	}
